@@ -3,7 +3,6 @@ package harness
 import (
 	"fmt"
 	"math"
-	"runtime"
 	"sort"
 	"time"
 
@@ -54,7 +53,6 @@ type c16Scenario struct {
 	ends   map[int][]uint64
 	op     *Op
 	anyOp  *Op
-	exitOp *Op
 	extra  []Violation
 	hung   bool
 }
@@ -237,26 +235,7 @@ func (sc *c16Scenario) Run(s *simrt.Sim) {
 	if !s.WaitUntilTimeout(th2.Done, 20*time.Minute) {
 		sc.hung = true
 	}
-	if len(sc.List) >= 2 && len(sc.List)%2 == 0 && len(sc.List) < 100 {
-		// fault: one application of f ends its goroutine without returning (runtime.Goexit - what t.FailNow does inside a
-		// callback); the call still returns once the other applications are over
-		victim := sc.List[len(sc.List)/2]
-		th3 := s.Go("caller-goexit", func() {
-			sc.exitOp = h.Do("caller-goexit", "PMap with an f that ends its goroutine once", victim, func() (interface{}, error) {
-				return fpgo.PMap(func(x int) int {
-					s.Yield()
-					if x == victim {
-						s.Fault("f-ends-its-goroutine")
-						runtime.Goexit()
-					}
-					return x
-				}, opt, sc.List...), nil
-			})
-		})
-		if !s.WaitUntilTimeout(th3.Done, 20*time.Minute) {
-			sc.extra = append(sc.extra, Violation{Clause: "termination", Fingerprint: "pmap-did-not-return-after-f-ended-its-goroutine", Detail: fmt.Sprintf("one application of f called runtime.Goexit(): PMap never returned; list %v pool=%d hasopt=%v random=%v", sc.List, sc.FixedPool, sc.HasOpt, sc.Random)})
-		}
-	}
+	// (an f that ends its goroutine with runtime.Goexit was tried here and withdrawn: DESIGN.md §9, 17)
 }
 
 func (sc *c16Scenario) Check(res *simrt.Result) []Violation {
